@@ -86,12 +86,14 @@ PROPS = {
     },
     "C06": {
         "engines": [{"name": "server", "n": {"quick": 150, "thorough": 2000}, "profiles": ["debug"], "oracle": "oracle_C06", "shard": 20},
-                    {"name": "srvhandler", "n": {"quick": 400, "thorough": 15000}, "profiles": ["debug"], "oracle": "oracle_C06", "shard": 60}],
-        "tie_lemmas": ["tie_max_wantlist_entries", "tie_srv_wantlist_shape", "tie_shpoll", "tie_shpoll_tables"],
+                    {"name": "srvhandler", "n": {"quick": 400, "thorough": 15000}, "profiles": ["debug"], "oracle": "oracle_C06", "shard": 60},
+                    {"name": "srvsplit", "n": {"quick": 60, "thorough": 3000}, "profiles": ["debug"], "oracle": "oracle_C09"}],
+        "tie_lemmas": ["tie_max_wantlist_entries", "tie_srv_wantlist_shape", "tie_shpoll", "tie_shpoll_tables", "tie_split_addend", "tie_split_operator", "tie_split_limit", "tie_split_early_return", "tie_split_shape"],
         "rule": """engine server: the server half of Behaviour driven op by op through the public NetworkBehaviour interface (new connection, wantlist message, new blocks, disconnect, release of one store.get call, poll to Pending) with a scripted blockstore whose calls complete only when released, in any order; histories over 1-3 peers x 2-4 CIDs (updates and full wantlists with wants, cancels, duplicates, cancel+want of one CID in one message, undecodable CIDs; hits, misses, failures, unknown call numbers; blocks arriving between registration and completion) driven to quiescence at the end, plus wantlists of 0..1300 (quick) / 5000 (thorough) entries, full and update. After every op the outputs (store calls started, QueueOutgoingMessages per peer) and a snapshot of the server state are compared with the model; the oracle folds the Bitswap reference view over the op history and the implementation's outputs only. Every history is non-trivial; distinct = distinct op lists.""",
         "assumptions": ["32 <= S <= 255", "A-STORE (healthy blockstore) is not needed by the theorems: store answers are inputs",
                         "the reference view contains the 1024 cap of C13 (C06_cap_refuted shows a want beyond it is dropped)",
-                        "engine srvhandler (see C09): blocks the behaviour handed to the connection handler must reach the stream in order without one being skipped (fault-free runs); what a stream fault loses is outside C06's fault list"],
+                        "engine srvhandler (see C09): blocks the behaviour handed to the connection handler must reach the stream in order without one being skipped (fault-free runs); what a stream fault loses is outside C06's fault list",
+                        "engine srvsplit (see C09): a reply message above the limit is undeliverable (every receiver fails the stream), so for C06 every batch must leave the handler in messages within the limit"],
     },
     "C07": {
         "engines": [{"name": "server", "n": {"quick": 150, "thorough": 2000}, "profiles": ["debug"], "oracle": "oracle_C07", "shard": 20}],
@@ -126,6 +128,7 @@ PROPS = {
     },
     "C03": {
         "engines": [{"name": "client", "n": {"quick": 600, "thorough": 12000}, "profiles": ["debug"], "oracle": "oracle_C03", "shard": 15}],
+        "tie_lemmas": ["tie_ctask", "tie_ctask_tables"],
         "rule": """engine client: the client half of Behaviour driven op by op (get incl. unconvertible CIDs, cancel of issued and foreign ids, connections opened/closed (via ConnectionClosed and via ClientClosingConnection), incoming client messages with presences and blocks, sending-state reports (protocol-conforming, late, from other connections), release of scripted blockstore get/put calls with hit / miss / failure in any order, virtual-clock advances around 1 s / 5 s / 30 s, ClientBehaviour::poll to Pending, get_new_blocks) over 1-3 peers x <= 3 connections x 2-4 CIDs; after every op the outputs and a full snapshot of the client state are compared with the model. The oracles are folds over the op history and the implementation's outputs/snapshots only. Every history is non-trivial; distinct = distinct op lists.""",
         "assumptions": ["u64 next_query_id / revision overflow ignored (2^64 calls)", "hash-map iteration order taken as an input (connection choice) or compared as multisets",
                         "a cancel after the answer reached the node (its event is already queued) does not retract the event: the property speaks of queries cancelled before"],
